@@ -107,6 +107,17 @@ def main():
     # ---------------- 2. cases, implementation, correspondence K, oracle O
     rng = random.Random(seed)
     cases = mod.gen(rng, a.tier)
+    # Fingerprint escalation (DESIGN.md 1.2): a changed source text is NOT a verdict, it only makes the quick tier explore
+    # more (three further generator seeds), so that edited code always meets a deeper search.
+    escalated = lib.changed_sources(getattr(mod, 'SOURCES', None))
+    if escalated and a.tier == 'quick' and not os.environ.get('VERIF_NO_ESCALATE'):
+        seen = {lib.jhash(c) for c in cases}
+        for extra in (1, 2, 3):
+            for c in mod.gen(random.Random(seed * 7919 + extra), a.tier):
+                h = lib.jhash(c)
+                if h not in seen:
+                    seen.add(h)
+                    cases.append(c)
     obs = lib.run_impl(prop, cases, per_case_timeout=getattr(mod, 'CASE_TIMEOUT', 20))
     herr = [(i, o) for i, o in enumerate(obs) if o is None or o.get('harness_error') or o.get('crash')]
     if herr:
@@ -183,7 +194,7 @@ def main():
             'rule': mod.RULE, 'samples': samples, 'input_distribution': buckets,
             'traces_validated_against_impl': len(cases) if model_ok else 0,
             'correspondence_disagreements': len(k_bad),
-            'known_findings_hit': sorted(hits), 'broken': broken,
+            'known_findings_hit': sorted(hits), 'broken': broken, 'escalated_for_changed_sources': escalated,
             'exhaustive': bool(getattr(mod, 'EXHAUSTIVE', {}).get(a.tier, False)),
         },
         'assumptions': list(getattr(mod, 'ASSUMPTIONS', [])),
